@@ -25,6 +25,7 @@ type c05 struct {
 	fLocation                               FieldID
 	lockID                                  string
 	idType                                  types.Type
+	jobWaiterIsWG                           bool
 	reachMemo                               map[*ssa.Function][2]map[*ssa.Function]bool
 	reachLoop                               map[*ssa.Function]bool // functions from which the scheduler loop is reached
 	run                                     *c05Flow               // running/claimed flow (ownership rules)
@@ -58,24 +59,53 @@ func c05FieldExists(n *types.Named, name string) bool {
 	return false
 }
 
-// c05PickField resolves a struct field by ROLE: the fields satisfying pred;
-// if several do, the name hint decides; none or still ambiguous => "".
-func c05PickField(st *types.Struct, hint string, pred func(f *types.Var) bool) string {
-	var cands []string
+// c05FieldCand: a field of Cron or of one of its own sub-structs.
+type c05FieldCand struct {
+	id FieldID
+	v  *types.Var
+}
+
+// c05CollectFields lists the fields of st (type key tkey) and, recursively, of
+// its struct-typed fields whose type is declared in the same package or is an
+// anonymous struct (fields grouped into a sub-struct).
+func c05CollectFields(st *types.Struct, tkey string, pkg *types.Package, depth int) []c05FieldCand {
+	var out []c05FieldCand
 	for i := 0; i < st.NumFields(); i++ {
-		if pred(st.Field(i)) {
-			cands = append(cands, st.Field(i).Name())
+		f := st.Field(i)
+		out = append(out, c05FieldCand{FieldID{tkey, f.Name()}, f})
+		if depth >= 2 {
+			continue
+		}
+		sub, ok := f.Type().Underlying().(*types.Struct)
+		if !ok {
+			continue
+		}
+		if n, isNamed := f.Type().(*types.Named); isNamed && (n.Obj().Pkg() == nil || n.Obj().Pkg() != pkg) {
+			continue // sync.Mutex, time.Time, ...: not ours to look into
+		}
+		out = append(out, c05CollectFields(sub, namedKey(f.Type()), pkg, depth+1)...)
+	}
+	return out
+}
+
+// c05PickField resolves a field by ROLE: the candidates satisfying pred; if
+// several do, the name hint decides; none or still ambiguous => zero FieldID.
+func c05PickField(cands []c05FieldCand, hint string, pred func(f *types.Var) bool) FieldID {
+	var ok []FieldID
+	for _, c := range cands {
+		if pred(c.v) {
+			ok = append(ok, c.id)
 		}
 	}
-	if len(cands) == 1 {
-		return cands[0]
+	if len(ok) == 1 {
+		return ok[0]
 	}
-	for _, c := range cands {
-		if c == hint {
+	for _, c := range ok {
+		if c.Field == hint {
 			return c
 		}
 	}
-	return ""
+	return FieldID{}
 }
 
 func c05HasMethods(t types.Type, names ...string) bool {
@@ -135,41 +165,42 @@ func newC05Base(p *Prog, r *Report, pkgPath, rel string, need []string) *c05 {
 		}
 		return nil
 	}
-	roles := map[string]string{
-		"entries": c05PickField(cst, "entries", func(f *types.Var) bool {
+	cands := c05CollectFields(cst, ct, cronT.Obj().Pkg(), 0)
+	roles := map[string]FieldID{
+		"entries": c05PickField(cands, "entries", func(f *types.Var) bool {
 			sl, ok := f.Type().Underlying().(*types.Slice)
 			return ok && isEntryPtr(sl.Elem())
 		}),
-		"running": c05PickField(cst, "running", func(f *types.Var) bool {
+		"running": c05PickField(cands, "running", func(f *types.Var) bool {
 			b, ok := f.Type().Underlying().(*types.Basic)
 			return ok && b.Kind() == types.Bool
 		}),
-		"runningMu": c05PickField(cst, "runningMu", func(f *types.Var) bool {
+		"runningMu": c05PickField(cands, "runningMu", func(f *types.Var) bool {
 			k := namedKey(f.Type())
 			return k == "sync.Mutex" || k == "sync.RWMutex"
 		}),
-		"jobWaiter": c05PickField(cst, "jobWaiter", func(f *types.Var) bool {
+		"jobWaiter": c05PickField(cands, "jobWaiter", func(f *types.Var) bool {
 			if _, isIface := f.Type().Underlying().(*types.Interface); isIface {
 				return false
 			}
 			return c05HasMethods(f.Type(), "Add", "Done", "Wait")
 		}),
-		"location": c05PickField(cst, "location", func(f *types.Var) bool {
+		"location": c05PickField(cands, "location", func(f *types.Var) bool {
 			return namedKey(f.Type()) == "time.Location"
 		}),
-		"add": c05PickField(cst, "add", func(f *types.Var) bool {
+		"add": c05PickField(cands, "add", func(f *types.Var) bool {
 			e := chanElem(f.Type())
 			return e != nil && isEntryPtr(e)
 		}),
-		"remove": c05PickField(cst, "remove", func(f *types.Var) bool {
+		"remove": c05PickField(cands, "remove", func(f *types.Var) bool {
 			e := chanElem(f.Type())
 			return e != nil && idT != nil && types.Identical(e, idT)
 		}),
-		"snapshot": c05PickField(cst, "snapshot", func(f *types.Var) bool {
+		"snapshot": c05PickField(cands, "snapshot", func(f *types.Var) bool {
 			e := chanElem(f.Type())
 			return e != nil && chanElem(e) != nil
 		}),
-		"stop": c05PickField(cst, "stop", func(f *types.Var) bool {
+		"stop": c05PickField(cands, "stop", func(f *types.Var) bool {
 			e := chanElem(f.Type())
 			if e == nil {
 				return false
@@ -179,15 +210,20 @@ func newC05Base(p *Prog, r *Report, pkgPath, rel string, need []string) *c05 {
 		}),
 	}
 	for _, n := range need {
-		if roles[n] == "" {
+		if roles[n].Field == "" {
 			undecided("cannot resolve the field of cron.Cron playing the role %q (by type/method set, then by name)", n)
 		}
 	}
-	a.fEntries, a.fRunning, a.fJobWaiter = FieldID{ct, roles["entries"]}, FieldID{ct, roles["running"]}, FieldID{ct, roles["jobWaiter"]}
-	a.fStop, a.fAdd, a.fRemove, a.fSnapshot = FieldID{ct, roles["stop"]}, FieldID{ct, roles["add"]}, FieldID{ct, roles["remove"]}, FieldID{ct, roles["snapshot"]}
+	a.fEntries, a.fRunning, a.fJobWaiter = roles["entries"], roles["running"], roles["jobWaiter"]
+	a.fStop, a.fAdd, a.fRemove, a.fSnapshot = roles["stop"], roles["add"], roles["remove"], roles["snapshot"]
 	a.fNext, a.fPrev, a.fSchedule, a.fWrapped, a.fJob, a.fID = FieldID{et, "Next"}, FieldID{et, "Prev"}, FieldID{et, "Schedule"}, FieldID{et, "WrappedJob"}, FieldID{et, "Job"}, FieldID{et, "ID"}
-	a.lockID = ct + "." + roles["runningMu"]
-	a.fLocation = FieldID{ct, roles["location"]}
+	a.lockID = roles["runningMu"].Type + "." + roles["runningMu"].Field
+	a.fLocation = roles["location"]
+	for _, c := range cands {
+		if c.id == roles["jobWaiter"] && c.id.Field != "" {
+			a.jobWaiterIsWG = namedKey(c.v.Type()) == "sync.WaitGroup"
+		}
+	}
 	a.idType = idT
 	a.funcs = p.FuncsOfPkg(rel)
 
@@ -266,6 +302,24 @@ func (a *c05) reachFrom(fn *ssa.Function, followGo bool) map[*ssa.Function]bool 
 			}
 			if h := staticCallee(ci); h != nil && a.p.funcSet[h] && h.Pkg == fn.Pkg {
 				walk(h)
+			}
+			// closures handed to a callee that runs them, and statically known dynamic targets
+			for _, h := range a.syncCallbacks(ci) {
+				walk(h)
+			}
+			if _, viaParam := ci.Common().Value.(*ssa.Parameter); !viaParam {
+				for _, h := range a.dynTargets(ci) {
+					if a.p.funcSet[h] {
+						walk(h)
+					}
+				}
+			}
+			for _, arg := range ci.Common().Args {
+				if mc, ok := arg.(*ssa.MakeClosure); ok && a.passedToCaller(ci, mc) {
+					if h, ok := mc.Fn.(*ssa.Function); ok {
+						walk(h)
+					}
+				}
 			}
 		})
 	}
@@ -473,17 +527,18 @@ func (a *c05) timerChan(v ssa.Value, seen map[ssa.Value]bool) bool {
 		if x.Op == token.MUL {
 			if fa, ok := x.X.(*ssa.FieldAddr); ok {
 				id := fieldIDOfAddr(fa)
-				return id.Type == "time.Timer" && id.Field == "C"
-			}
-			if cell, ok := x.X.(*ssa.Alloc); ok {
-				if vals := c05CellStores(cell); vals != nil {
-					for _, sv := range vals {
-						if !a.timerChan(sv, seen) {
-							return false
-						}
-					}
+				if id.Type == "time.Timer" && id.Field == "C" {
 					return true
 				}
+			}
+			// a local variable, or a field of a local struct (timer and channel grouped together)
+			if vals := c05LocStores(x.X); vals != nil {
+				for _, sv := range vals {
+					if !a.timerChan(sv, seen) {
+						return false
+					}
+				}
+				return true
 			}
 		}
 	}
@@ -496,16 +551,21 @@ func (a *c05) returnsOf(call *ssa.Call, idx int) []ssa.Value {
 	if call.Call.IsInvoke() {
 		return nil
 	}
-	h := staticCallee(call)
-	if h == nil || !a.p.funcSet[h] || len(h.Blocks) == 0 {
+	hs := a.calleesOf(call)
+	if len(hs) == 0 {
 		return nil
 	}
 	var out []ssa.Value
-	allInstrs(h, func(in ssa.Instruction) {
-		if ret, ok := in.(*ssa.Return); ok && idx < len(ret.Results) && (len(in.Block().Preds) > 0 || in.Block().Index == 0) {
-			out = append(out, ret.Results[idx])
+	for _, h := range hs {
+		if len(h.Blocks) == 0 {
+			return nil
 		}
-	})
+		allInstrs(h, func(in ssa.Instruction) {
+			if ret, ok := in.(*ssa.Return); ok && idx < len(ret.Results) && (len(in.Block().Preds) > 0 || in.Block().Index == 0) {
+				out = append(out, ret.Results[idx])
+			}
+		})
+	}
 	return out
 }
 
@@ -613,22 +673,14 @@ func (a *c05) clockDerived1(v ssa.Value) bool {
 			return a.timerChan(x.X, map[ssa.Value]bool{})
 		}
 		if x.Op == token.MUL {
-			// a local cell: every store is clock-derived
-			if cell, ok := x.X.(*ssa.Alloc); ok {
-				n := 0
-				for _, r := range refs(cell) {
-					switch s := r.(type) {
-					case *ssa.Store:
-						if s.Addr != cell || !a.clockDerived(s.Val) {
-							return false
-						}
-						n++
-					case *ssa.UnOp:
-					default:
+			// a local cell or a field of a local struct: every store is clock-derived
+			if vals := c05LocStores(x.X); len(vals) > 0 {
+				for _, sv := range vals {
+					if !a.clockDerived(sv) {
 						return false
 					}
 				}
-				return n > 0
+				return true
 			}
 		}
 		return false
@@ -645,17 +697,15 @@ func (a *c05) clockDerived1(v ssa.Value) bool {
 				return a.clockDerived(x.Call.Args[0])
 			}
 		}
-		if cal := staticCallee(x); cal != nil && a.p.funcSet[cal] && cal.Signature.Results().Len() == 1 {
-			n, ok := 0, true
-			allInstrs(cal, func(in ssa.Instruction) {
-				if ret, isRet := in.(*ssa.Return); isRet && len(ret.Results) == 1 {
-					n++
-					if !a.clockDerived(ret.Results[0]) {
-						ok = false
+		if x.Call.Signature().Results().Len() == 1 {
+			if rets := a.returnsOf(x, 0); len(rets) > 0 {
+				for _, rv := range rets {
+					if !a.clockDerived(rv) {
+						return false
 					}
 				}
-			})
-			return ok && n > 0
+				return true
+			}
 		}
 		return false
 	case *ssa.Parameter:
@@ -843,7 +893,7 @@ func (a *c05) syncCallbackOnly(fn *ssa.Function) bool {
 				continue
 			}
 			ci, isCall := u.(ssa.CallInstruction)
-			if !isCall || len(a.syncCallbacks(ci)) == 0 {
+			if !isCall || (len(a.syncCallbacks(ci)) == 0 && !a.passedToCaller(ci, mc)) {
 				ok = false
 			}
 			n++
@@ -906,6 +956,325 @@ func c05DomAtoms(b *ssa.BasicBlock) []c05Atom {
 	var out []c05Atom
 	for _, dc := range domConds(b) {
 		out = append(out, c05ExpandCond(dc.If.Cond, dc.Branch, 0)...)
+	}
+	return out
+}
+
+// dynTargets: the same-module functions a dynamic call can reach when that is
+// statically known: a call of a PARAMETER whose every actual is a closure or
+// function (a callback helper such as withLock(func(){...})), or a call
+// through an unexported func-typed struct FIELD all of whose stores are
+// closures/functions.
+func (a *c05) dynTargets(ci ssa.CallInstruction) []*ssa.Function {
+	cc := ci.Common()
+	if cc.IsInvoke() {
+		return nil
+	}
+	asFuncs := func(vals []ssa.Value) []*ssa.Function {
+		var out []*ssa.Function
+		for _, v := range vals {
+			switch x := v.(type) {
+			case *ssa.MakeClosure:
+				fn, ok := x.Fn.(*ssa.Function)
+				if !ok {
+					return nil
+				}
+				out = append(out, a.unwrapBound(fn))
+			case *ssa.Function:
+				out = append(out, a.unwrapBound(x))
+			default:
+				return nil
+			}
+		}
+		return out
+	}
+	switch v := cc.Value.(type) {
+	case *ssa.Parameter:
+		acts := a.actualsOf(v)
+		if len(acts) == 0 {
+			return nil
+		}
+		return asFuncs(acts)
+	case *ssa.UnOp:
+		if v.Op != token.MUL {
+			return nil
+		}
+		fa, ok := v.X.(*ssa.FieldAddr)
+		if !ok {
+			return nil
+		}
+		id := fieldIDOfAddr(fa)
+		if id.Field == "" || id.Field == "?" || token.IsExported(id.Field) {
+			return nil
+		}
+		var vals []ssa.Value
+		for _, fn := range a.p.Funcs {
+			allInstrs(fn, func(in ssa.Instruction) {
+				if st, ok := in.(*ssa.Store); ok {
+					if sfa, ok := st.Addr.(*ssa.FieldAddr); ok && fieldIDOfAddr(sfa) == id {
+						vals = append(vals, st.Val)
+					}
+				}
+			})
+		}
+		if len(vals) == 0 {
+			return nil
+		}
+		return asFuncs(vals)
+	}
+	return nil
+}
+
+// passedToCaller: closure mc is an argument of a plain call to a same-module
+// function whose corresponding parameter is only ever CALLED (synchronously):
+// the closure runs during that call, on the caller's goroutine.
+func (a *c05) passedToCaller(ci ssa.CallInstruction, mc ssa.Value) bool {
+	if _, isCall := ci.(*ssa.Call); !isCall {
+		return false
+	}
+	h := staticCallee(ci)
+	if h == nil || !a.p.funcSet[h] {
+		return false
+	}
+	found := false
+	for k, arg := range ci.Common().Args {
+		if arg != mc {
+			continue
+		}
+		if k >= len(h.Params) {
+			return false
+		}
+		for _, u := range refs(h.Params[k]) {
+			switch x := u.(type) {
+			case *ssa.DebugRef:
+			case *ssa.Call:
+				if x.Call.Value != ssa.Value(h.Params[k]) {
+					return false
+				}
+			default:
+				return false
+			}
+		}
+		found = true
+	}
+	return found
+}
+
+// callbackBinding: for a call of h at ci, the parameters of h that receive a
+// closure/function which h only calls.
+func (a *c05) callbackBinding(ci ssa.CallInstruction, h *ssa.Function) map[*ssa.Parameter]*ssa.Function {
+	if staticCallee(ci) != h {
+		return nil
+	}
+	var out map[*ssa.Parameter]*ssa.Function
+	for k, arg := range ci.Common().Args {
+		if k >= len(h.Params) {
+			break
+		}
+		var fn *ssa.Function
+		switch x := arg.(type) {
+		case *ssa.MakeClosure:
+			fn, _ = x.Fn.(*ssa.Function)
+		case *ssa.Function:
+			fn = x
+		}
+		if fn == nil || !a.p.funcSet[fn] || !a.passedToCaller(ci, arg) {
+			continue
+		}
+		if out == nil {
+			out = map[*ssa.Parameter]*ssa.Function{}
+		}
+		out[h.Params[k]] = fn
+	}
+	return out
+}
+
+// c05SameVar: x and y are the same value, or two reads of the same variable
+// (loads of one address: a captured variable or a local cell).
+func c05SameVar(x, y ssa.Value) bool {
+	if x == y {
+		return true
+	}
+	ux, ok1 := x.(*ssa.UnOp)
+	uy, ok2 := y.(*ssa.UnOp)
+	if !ok1 || !ok2 || ux.Op != token.MUL || uy.Op != token.MUL {
+		return false
+	}
+	if ux.X != uy.X {
+		return false
+	}
+	switch ux.X.(type) {
+	case *ssa.FreeVar, *ssa.Alloc:
+		return true
+	}
+	return false
+}
+
+// c05LocStores: the values ever stored into the local location addr — a local
+// variable cell (Alloc) or a field of a local struct (FieldAddr of an Alloc) —
+// provided the variable does not escape (it is only stored to / loaded from,
+// directly or field-wise); nil otherwise. Zero values of never-assigned fields
+// are not reported.
+func c05LocStores(addr ssa.Value) []ssa.Value {
+	switch x := addr.(type) {
+	case *ssa.Alloc:
+		return c05CellStores(x)
+	case *ssa.FieldAddr:
+		base, ok := x.X.(*ssa.Alloc)
+		if !ok {
+			return nil
+		}
+		var out []ssa.Value
+		for _, r := range refs(base) {
+			switch y := r.(type) {
+			case *ssa.DebugRef:
+			case *ssa.FieldAddr:
+				for _, r2 := range refs(y) {
+					switch z := r2.(type) {
+					case *ssa.Store:
+						if z.Addr != ssa.Value(y) {
+							return nil // the field's address is stored somewhere
+						}
+						if y.Field == x.Field {
+							out = append(out, z.Val)
+						}
+					case *ssa.UnOp, *ssa.DebugRef:
+					default:
+						return nil
+					}
+				}
+			case *ssa.Store:
+				if y.Addr != ssa.Value(base) {
+					return nil
+				}
+				if _, isConst := y.Val.(*ssa.Const); !isConst {
+					return nil
+				}
+			default:
+				return nil
+			}
+		}
+		return out
+	}
+	return nil
+}
+
+const (
+	c05ClockUnknown = iota
+	c05ClockYes
+	c05ClockNo
+)
+
+// clockKind: is v a reading of the clock (Yes), positively something else
+// (No: an entry's stored instant, a shifted/truncated time, a constant, the
+// zero value), or of unknown provenance (Unknown: e.g. the result of a call
+// that cannot be resolved)?
+func (a *c05) clockKind(v ssa.Value) int {
+	if a.clockDerived(v) {
+		return c05ClockYes
+	}
+	return a.clockNo(v, map[ssa.Value]bool{})
+}
+
+func (a *c05) clockNo(v ssa.Value, seen map[ssa.Value]bool) int {
+	if seen[v] {
+		return c05ClockUnknown
+	}
+	seen[v] = true
+	switch x := v.(type) {
+	case *ssa.Const:
+		return c05ClockNo
+	case *ssa.UnOp:
+		if x.Op == token.MUL {
+			if fa, ok := x.X.(*ssa.FieldAddr); ok {
+				id := fieldIDOfAddr(fa)
+				if id == a.fNext || id == a.fPrev {
+					return c05ClockNo // an activation instant, not the current time
+				}
+			}
+			if vals := c05LocStores(x.X); len(vals) > 0 {
+				for _, sv := range vals {
+					if !a.clockDerived(sv) && a.clockNo(sv, seen) == c05ClockNo {
+						return c05ClockNo
+					}
+				}
+			}
+		}
+	case *ssa.Phi:
+		for _, ed := range x.Edges {
+			if !a.clockDerived(ed) && a.clockNo(ed, seen) == c05ClockNo {
+				return c05ClockNo
+			}
+		}
+	case *ssa.Parameter:
+		for _, av := range a.actualsOf(x) {
+			if !a.clockDerived(av) && a.clockNo(av, seen) == c05ClockNo {
+				return c05ClockNo
+			}
+		}
+	case *ssa.Call:
+		if x.Call.IsInvoke() {
+			return c05ClockUnknown
+		}
+		for _, n := range []string{"Add", "AddDate", "Truncate", "Round"} {
+			if c05IsTimeMethod(x, n) {
+				return c05ClockNo
+			}
+		}
+		for _, n := range []string{"In", "UTC", "Local"} {
+			if c05IsTimeMethod(x, n) {
+				return a.clockNo(x.Call.Args[0], seen)
+			}
+		}
+		if obj := calleeObj(x); obj != nil && obj.Pkg() != nil && obj.Pkg().Path() == "time" {
+			switch obj.Name() {
+			case "Date", "Unix", "UnixMilli", "UnixMicro":
+				return c05ClockNo
+			}
+		}
+		if rets := a.returnsOf(x, 0); rets != nil {
+			for _, rv := range rets {
+				if !a.clockDerived(rv) && a.clockNo(rv, seen) == c05ClockNo {
+					return c05ClockNo
+				}
+			}
+		}
+	}
+	return c05ClockUnknown
+}
+
+// unwrapBound: a bound-method / thunk wrapper (c.now used as a value) is
+// replaced by the method it wraps.
+func (a *c05) unwrapBound(fn *ssa.Function) *ssa.Function {
+	if a.p.funcSet[fn] || fn.Synthetic == "" {
+		return fn
+	}
+	if obj, ok := fn.Object().(*types.Func); ok && obj != nil {
+		if m := a.p.SSA.FuncValue(obj); m != nil && a.p.funcSet[m] {
+			return m
+		}
+	}
+	return fn
+}
+
+// calleesOf: the same-module functions a call can reach (static callee, or
+// statically known dynamic targets); nil if unknown.
+func (a *c05) calleesOf(call ssa.CallInstruction) []*ssa.Function {
+	if call.Common().IsInvoke() {
+		return nil
+	}
+	if h := staticCallee(call); h != nil {
+		if a.p.funcSet[h] {
+			return []*ssa.Function{h}
+		}
+		return nil
+	}
+	var out []*ssa.Function
+	for _, t := range a.dynTargets(call) {
+		if !a.p.funcSet[t] {
+			return nil
+		}
+		out = append(out, t)
 	}
 	return out
 }
